@@ -339,6 +339,34 @@ SpecEff  == Init /\ [][NextEff]_vars
 Spec     == Init /\ [][Next]_vars
 SpecCore == Init /\ [][NextCore]_vars
 
+(* Separators are lower bounds, not copies of keys.  The code of today keeps every separator equal to the smallest  *)
+(* key below it, but a tree loaded from a stored state (older releases, the repository's own "degenerate" test      *)
+(* tree, any legal __setstate__) may carry smaller ones: any s with                                                  *)
+(*      largest key of the left neighbour's subtree  <  s  <=  smallest key of the child's subtree.                  *)
+(* Loosen is that step (one separator replaced through the node's __setstate__); every operator above must work on  *)
+(* such trees as well.  Bounds == Keys plus one rank below and one above (what range queries use as outside bounds). *)
+RECURSIVE SubMin(_, _)
+SubMin(h, id) == IF h[id].t = "L" THEN h[id].ks[1] ELSE SubMin(h, h[id].kids[1])
+RECURSIVE SubMax(_, _)
+SubMax(h, id) == LET n == h[id] IN IF n.t = "L" THEN n.ks[Len(n.ks)] ELSE SubMax(h, n.kids[Len(n.kids)])
+RECURSIVE PathTo(_, _, _)
+PathTo(h, from, id) ==            \* child indices from `from` down to id; <<-1>> when id is not below it
+  IF from = id THEN <<>>
+  ELSE LET n == h[from] IN
+       IF n.t = "L" THEN <<-1>>
+       ELSE LET cands == {j \in 1..Len(n.kids) : PathTo(h, n.kids[j], id) # <<-1>>} IN
+            IF cands = {} THEN <<-1>>
+            ELSE LET j == CHOOSE x \in cands : TRUE IN <<j>> \o PathTo(h, n.kids[j], id)
+SepChoices == (Keys \cup {(CHOOSE x \in Keys : \A y \in Keys : x <= y) - 1}) \ {0}
+Loosen(id, i, s) ==
+  /\ heap[id].t = "I" /\ i \in 2..Len(heap[id].kids)
+  /\ s # heap[id].seps[i]
+  /\ SubMax(heap, heap[id].kids[i-1]) < s /\ s <= SubMin(heap, heap[id].kids[i])
+  /\ Step([heap EXCEPT ![id] = Inner(heap[id].kids, [heap[id].seps EXCEPT ![i] = s], heap[id].fb)], m,
+          [op |-> "loosen", k |-> s, v |-> i, p |-> PathTo(heap, Root, id)], OK, OK)
+NextLoose == NextCore \/ \E id \in DOMAIN heap, i \in 2..(2 * MaxInt), s \in SepChoices : Loosen(id, i, s)
+SpecLoose == Init /\ [][NextLoose]_vars
+
 -----------------------------------------------------------------------------
 (* C01: refinement of the sorted map *)
 AbsOK == /\ Contents(heap) = AbsKeys(m)
